@@ -16,13 +16,14 @@ PRIV_RULE = ("harness/src/bin/wrappers.rs: the REAL build_private_batch_constrai
              "equality hints, forged comparator splits, forged sum bits) for N<=3. All gate constraints evaluated; accept/reject and all "
              "21N+8 outputs compared with the Coq model (hon/ovr); fid 605 = hint-generator fingerprint vs model trace. "
              "distinct = distinct (fid, input, overrides); non-trivial = N >= 2 or an override present")
-HARNESS = [("wrappers", ["pub"])]
+HARNESS = [("wrappers", ["pub"]), ("recursive", ["pub"])]
 FIDS = [1201, 1205]
 RULE = ("harness/src/bin/wrappers.rs: the REAL build_public_batch_constraints (cfg-gated forwarder) over free inner public-input "
         "targets for (M,N) in {(1,1),(2,1),(3,1),(2,2),(3,2),(4,3)} (thorough: up to (16,4)): inner vectors with real/dummy mix, "
         "asset / fee / block mismatches on real and on dummy inners, differing block numbers and garbage count felts (must not "
         "matter), all-dummy; forged equality hints for M*N<=4. Compared: accept/reject and all 12+14MN outputs with the Coq model. "
-        "distinct = distinct (fid, input, overrides); non-trivial = M >= 2 or an override present")
+        "distinct = distinct (fid, input, overrides); non-trivial = M >= 2 or an override present"
+        ' Additionally harness/src/bin/recursive.rs (tags "full-recursive/..."): the FULL PublicBatchCircuit::new (wrapper + add_recursive_verifiers) for M in {1,2} (thorough: 3) over REAL private-batch proofs (N in {1,2}, real configuration, fake-leaf children), really proved and verified: consistent, dummy inners (all-dummy private batches proved by filling the circuit directly), dummy inner with another asset, all-dummy, block / related-digest / asset / fee mismatches between real inners (proving must fail), differing block numbers, one inner in every slot; out = public inputs of the real proof, or [0] when proving fails.')
 
 
 def nontrivial(case, model_out):
